@@ -231,3 +231,4 @@ TEXT["C20"]["note"] += " Known finding F-C20-K1: the sharding partial encoder's 
 TEXT["C20"]["level"] += (" Props/C20PE states it for the encoder as a store-operation program: plans that publish in at most one store operation leave the shard untouched on every failed call and a retry converges (any number of reads, any failing set); the erase-then-write and two-write shapes are refuted by concrete witnesses.")
 TEXT["C08"]["level"] += (" The multi-key ranged get (get_partial_values, batched by key) is called on every store kind with present and absent keys and predicted request by request.")
 TEXT["C04"]["level"] += (" A third of the fill-heavy cases also run as sync/async twin requests (the asynchronous whole-chunk and multi-chunk writes decide about elision in their own copies of the code).")
+TEXT["C08"]["level"] += (" The batching loop itself is modelled as written (Model/MultiGet) and proved equal to the request-by-request specification for every store content and request list (Props/C08Multi: batched_eq_reqwise).")
